@@ -249,7 +249,9 @@ def _session_stream(ctx, drv):
                 def pn(x):
                     return ["l"] + [pn(y) for y in x] if isinstance(x, list) else exprio.pexpr(x)
                 try:
-                    s.ensure(nest)
+                    # any kind of iterable must behave like the list (one-shot iterables included)
+                    arg = nest if rng.random() < 0.6 else ((x for x in nest) if rng.random() < 0.5 else iter(tuple(nest)))
+                    s.ensure(arg)
                     out = "ok"
                 except Exception as e:
                     out = ["err", core.err_name(e)]
